@@ -87,7 +87,7 @@ def h_shift(e, cfg):
         for pos in np.ndindex(*dshape):
             da[pos] = K(dt) * int(ks[pos]) if not (kind == "lateral" and pos[0] == pos[1]) else F(0)     # a lateral connection masks its self-delays to 0
     else:
-        dl = e.sym(dshape, torch.float32, "d", lo=0, hi=K(mx))
+        dl = e.sym(dshape, torch.float32, "d", lo=0, hi=min(K(mx), F(mx)))      # never above the configured maximum (float32(3 * 1.3) is)
         D.delay = dl
         da = e.read(D.delay)
         if cfg["delays"] == "grid":
